@@ -221,9 +221,18 @@ def translate(repo):
         want_attr = ["try:\n    attrval = getattr(val, name)\nexcept AttributeError:\n    continue",
                      "if not brine.dumpable(attrval):\n    attrval = repr(attrval)",
                      "attrs.append((name, attrval))"]
-        if [u(x) for x in i2.orelse] != want_attr:
+        # repaired form: callables (methods such as add_note) are left out right after the getattr
+        skip_callable = "if callable(attrval):\n    continue"
+        got_attr = [u(x) for x in i2.orelse]
+        if got_attr == want_attr:
+            skips = False
+        elif got_attr == [want_attr[0], skip_callable] + want_attr[1:]:
+            skips = True
+            del i2.orelse[1]        # typed above: the shape of the rest of dump() is shared by both forms
+        else:
             raise Unrecognised("dump attribute normalisation")
         out.append(typed("dump_norm_is_dumpable_or_repr", "bool", "true"))
+        out.append(typed("dump_skips_callables", "bool", coq_bool(skips)))
         # version gating
         st = body[7]
         if not (isinstance(st, ast.If) and u(st.test) == "include_local_version" and len(st.body) == 1 and len(st.orelse) == 1
@@ -364,6 +373,16 @@ def translate(repo):
                     if not hs or u(hs[0]) != "self._send(consts.MSG_EXCEPTION, seq, self._box_exc(t, v, tb))" \
                             or any(u(x) != "self._send(consts.MSG_EXCEPTION, seq, self._box_exc(t, v, tb))" for x in hs):
                         raise Unrecognised("_send_exc: " + u(hf))
+                    # exact two-branch form: the boxed exception; if ITS payload cannot be dumped/encoded, that failure is boxed and sent
+                    # instead (EOFError propagates). The requester is always answered with one MSG_EXCEPTION frame.
+                    send = "self._send(consts.MSG_EXCEPTION, seq, self._box_exc(t, v, tb))"
+                    want = ("try:\n    %s\nexcept EOFError:\n    raise\nexcept Exception:\n    t, v, tb = sys.exc_info()\n    %s" % (send, send))
+                    hb2 = strip_doc(hf.body)
+                    if [a.arg for a in hf.args.args] != ["self", "seq", "t", "v", "tb"] or len(hb2) != 1 \
+                            or u(hb2[0]).replace("(t, v, tb) = sys.exc_info()", "t, v, tb = sys.exc_info()") != want:
+                        raise Unrecognised("_send_exc fallback form: " + u(hf))
+                    out.append(typed("send_exc_reports_dump_failure", "bool", "true"))
+                    out.append(shape("_send_exc", func_shape(hf)))
                 sends += 1
         if sends != 1:
             raise Unrecognised("_dispatch_request does not send the boxed exception exactly once")
@@ -406,6 +425,14 @@ def translate(repo):
                 return shape("AsyncResult.value", func_shape(n))
         raise Unrecognised("AsyncResult.value")
     guarded(async_value)
+
+    def remote_line():
+        a, b, c = find_assign(tree, "REMOTE_LINE_START"), find_assign(tree, "REMOTE_LINE_END"), find_assign(tree, "REMOTE_LINE")
+        if u(c) != "'{0}({{}}){1}'.format(REMOTE_LINE_START, REMOTE_LINE_END)":
+            raise Unrecognised("REMOTE_LINE: " + u(c))
+        return [typed("remote_line_start", "string", coq_string(_const_str(a))), typed("remote_line_end", "string", coq_string(_const_str(b))),
+                typed("remote_line_format", "string", coq_string("{0}({{}}){1}"))]
+    guarded(remote_line)
 
     def version_major():
         vt = parse(repo, "rpyc/version.py")
